@@ -59,11 +59,11 @@ Qed.
 Section Main.
 Variable wf : workflow.
 Let T := spec_table wf.
-Hypothesis DOM : c03_domain wf = true.
+Hypothesis DOM : c03_aligned wf = true.
 
-Lemma dom_parts : wf_ok wf = true /\ separate_class wf = true /\ comb_all_prev_class wf = true /\ empty_comb_class wf = true.
+Lemma dom_parts : wf_ok wf = true /\ share_class wf = true /\ comb_all_prev_class wf = true /\ empty_comb_class wf = true.
 Proof.
-  unfold c03_domain in DOM. apply andb_true_iff in DOM. destruct DOM as [D D4].
+  unfold c03_aligned in DOM. apply andb_true_iff in DOM. destruct DOM as [D D4].
   apply andb_true_iff in D. destruct D as [D D3]. apply andb_true_iff in D. destruct D as [D1 D2]. auto.
 Qed.
 Lemma T_length : List.length T = List.length wf.
@@ -104,19 +104,36 @@ Proof.
     pose proof (on_nodes_nth wf _ n nd e D3 Hnd HeT) as CA. cbn beta in CA. fold T in CA.
     assert (Hflt : forall x, In (BUp x) (n_fields nd) -> x < List.length stab) by (intros x Hx; exact (wf_fields_lt n nd Hnd x Hx)).
     assert (EU : ups T (n_fields nd) = ups stab (n_fields nd)) by (rewrite Eext; apply ups_ext; exact Hflt).
-    assert (SH' : pairwise (sep_ok wf stab) (U stab nd) = true).
-    { unfold separate_ok in SH. rewrite EU in SH. unfold U. rewrite <- SH. apply pairwise_ext_in.
-      intros x y Hx Hy. apply ups_in in Hx. apply ups_in in Hy. destruct Hx as [Hx _], Hy as [Hy _].
-      pose proof (Hflt x Hx) as Lx. pose proof (Hflt y Hy) as Ly.
-      unfold sep_ok, parents. rewrite Eext, !s_faxes_of_app by assumption. f_equal. f_equal. f_equal.
-      symmetry. apply ups_ext. intros z Hz.
-      assert (Hy' : nth_error wf y = Some (node_at wf y)).
+    assert (Hpar : forall z, z < n -> parents wf T z = parents wf stab z).
+    { intros z Hz. unfold parents. rewrite Eext. apply ups_ext. intros w Hw.
+      assert (Hz' : nth_error wf z = Some (node_at wf z)).
       { unfold node_at. apply nth_error_nth'. pose proof (proj1 (nth_error_Some wf n) ltac:(rewrite Hnd; discriminate)). lia. }
-      pose proof (wf_fields_lt y _ Hy' z Hz). lia. }
+      pose proof (wf_fields_lt z _ Hz' w Hw). unfold n in Hz. lia. }
     assert (CA' : comb_all_prev_ok stab nd = true).
     { unfold comb_all_prev_ok in *. rewrite EU in CA. rewrite Eext, up_axes_ext in CA by exact Hflt. exact CA. }
-    destruct (step_ok wf mtab stab n nd TO eq_refl Hnd wf_fields_lt NW SH' CA') as [me [Hstep EOn]].
-    fold e in EOn.
+    assert (Hstep' : exists me, step wf mtab n nd = Some me /\ entry_ok wf (stab ++ [e]) n nd me e).
+    { unfold sharing_ok in SH. apply orb_true_iff in SH. destruct SH as [SH|SH].
+      - (* separate origins *)
+        assert (SH' : pairwise (sep_ok wf stab) (U stab nd) = true).
+        { unfold separate_ok in SH. rewrite EU in SH. unfold U. rewrite <- SH. apply pairwise_ext_in.
+          intros x y Hx Hy. apply ups_in in Hx. apply ups_in in Hy. destruct Hx as [Hx _], Hy as [Hy _].
+          pose proof (Hflt x Hx) as Lx. pose proof (Hflt y Hy) as Ly.
+          unfold sep_ok. rewrite (Hpar y Ly). rewrite Eext, !s_faxes_of_app by assumption. reflexivity. }
+        exact (step_ok wf mtab stab n nd TO eq_refl Hnd wf_fields_lt NW CA' SH').
+      - (* a state and its relay *)
+        rewrite EU in SH. destruct (ups stab (n_fields nd)) as [|x [|y [|z l]]] eqn:EUU; try discriminate SH.
+        assert (Lx : x < n).
+        { apply Hflt. assert (H : In x (ups stab (n_fields nd))) by (rewrite EUU; left; reflexivity). apply ups_in in H. tauto. }
+        assert (Ly : y < n).
+        { apply Hflt. assert (H : In y (ups stab (n_fields nd))) by (rewrite EUU; right; left; reflexivity). apply ups_in in H. tauto. }
+        assert (Hrel : forall a b, a < n -> b < n -> relays wf T a b = relays wf stab a b).
+        { intros a b La Lb. unfold relays. rewrite (Hpar a La), (Hpar b Lb). reflexivity. }
+        apply orb_true_iff in SH. destruct SH as [SH|SH].
+        + rewrite (Hrel x y Lx Ly) in SH.
+          exact (step_relay wf mtab stab n nd TO eq_refl Hnd NW CA' x y (or_introl EUU) SH).
+        + rewrite (Hrel y x Ly Lx) in SH.
+          exact (step_relay wf mtab stab n nd TO eq_refl Hnd NW CA' y x (or_intror EUU) SH). }
+    destruct Hstep' as [me [Hstep EOn]].
     cbn [run_from]. rewrite (proj1 TO). fold n. rewrite Hstep.
     apply (IH (mtab ++ [me]) (stab ++ [e])).
     + split; [rewrite !app_length, (proj1 TO); reflexivity|].
@@ -147,7 +164,7 @@ Proof.
   intros i a' b' H1 H2. exact (H (S i) a' b' H1 H2).
 Qed.
 
-Theorem partial : model_run wf = Some (spec_run wf).
+Theorem aligned : model_run wf = Some (spec_run wf).
 Proof.
   destruct (main_ind wf [] []) as [mtab [Hrun TO]].
   - split; [reflexivity|]. intros j nd me se _ H. destruct j; discriminate H.
@@ -163,3 +180,14 @@ Proof.
     exact (on_nodes_nth wf _ i nd se (proj2 (proj2 (proj2 dom_parts))) Hnd H2).
 Qed.
 End Main.
+
+Theorem partial : forall wf, c03_domain wf = true -> model_run wf = Some (spec_run wf).
+Proof.
+  intros wf H. apply aligned. unfold c03_domain in H. unfold c03_aligned.
+  apply andb_true_iff in H. destruct H as [H H4]. apply andb_true_iff in H. destruct H as [H H3].
+  apply andb_true_iff in H. destruct H as [H1 H2]. rewrite H1, H3, H4.
+  assert (S : share_class wf = true).
+  { unfold share_class, separate_class, on_nodes in *. rewrite forallb_forall in H2. apply forallb_forall.
+    intros z Hz. specialize (H2 z Hz). cbn beta in *. unfold sharing_ok. rewrite H2. reflexivity. }
+  rewrite S. reflexivity.
+Qed.
